@@ -85,6 +85,12 @@ BATTERY = [
     ("b24", {"properties": {"a": False, "b": True}, "anyOf": [False, {"maxProperties": 1}], "not": False,
              "dependencies": {"b": True}},
      [{"a": 1}, {"b": 1}, {"b": 1, "c": 2}], None),
+    # the bundled metaschemas, reached BY URL through a freshly built default resolver (what a later registration
+    # under a draft's id must not change for the draft's own class): is the instance a valid draft-N schema?
+    ("b25", {"anyOf": [{"$ref": "http://json-schema.org/draft-04/schema#"}]},
+     [{"type": "even"}, {"type": "string"}, {"type": ["nonempty", "null"]}], None),
+    ("b26", {"anyOf": [{"$ref": "http://json-schema.org/draft-07/schema#"}]},
+     [{"type": "even"}, {"minimum": "x"}], None),
 ]
 OVERRIDABLE = ["minimum", "maxLength", "enum", "x-marker", "x-also", "required", "items",
                "maximum", "minLength", "pattern", "minItems", "maxItems", "uniqueItems", "properties",
@@ -330,6 +336,8 @@ def execute(scn):
                                "detail": {"parent": parent["note"], "got": child_vec["id_of"], "want": pv["id_of"]}})
             return
         for bid, schema, insts, fck in BATTERY:
+            if bid in ("b25", "b26"):
+                continue     # a whole metaschema is evaluated: it uses nearly every keyword and every type
             if tc_changed and _contains_key(schema, ("type",)):
                 continue     # a different type checker legitimately changes every `type` verdict
             if _contains_key(schema, changed_kws):
@@ -426,9 +434,10 @@ def execute(scn):
                 # must go on behaving as before, check_schema included
                 parent = parents_used.get(op.get("same_as"), None) or pick("class", op["a"])
                 kws = dict((n, kw_override(n, op["v"])) for n in op.get("kws", ())) if op["v"] % 2 else {}
-                new = V.extend(parent["obj"], validators=kws, version="dsim c16 ext %d" % step)
+                tcv = pick("tc", op["b"])["obj"] if op["v"] >= 2 else None     # (also with another type checker)
+                new = V.extend(parent["obj"], validators=kws, version="dsim c16 ext %d" % step, type_checker=tcv)
                 ent = add("class", new, step, "extend_version<" + parent["note"])
-                compare_with_parent(step, k, parent, ent["vec"], sorted(kws), False)
+                compare_with_parent(step, k, parent, ent["vec"], sorted(kws), tcv is not None)
                 ok = True
                 shared_touch += 1
             elif k == "extend_illegal":
